@@ -54,7 +54,8 @@ def same_helper(ctx):
     helper_div = {c for c, _e in callees["__truediv__"]}
     helper_jp = {c for c, _e in callees["joinpath"]}
     default = m.func("_url.URL._make_child").param_default("encoded") if m.has_func("_url.URL._make_child") else None
-    ok = helper_div == helper_jp and len(helper_div) == 1 and all(e == "default" for _c, e in callees["__truediv__"]) and \
-        all(e == "encoded" for _c, e in callees["joinpath"]) and getattr(default, "value", None) is False
+    # `/` quotes its operand: the helper's default (False) or an explicit False
+    div_false = all(e == "False" or (e == "default" and getattr(default, "value", None) is False) for _c, e in callees["__truediv__"])
+    ok = helper_div == helper_jp and len(helper_div) == 1 and div_false and all(e == "encoded" for _c, e in callees["joinpath"])
     ctx.ob(rule, "_url.URL.__truediv__", f"helpers {sorted(callees['__truediv__'])} / {sorted(callees['joinpath'])}", ok,
            "`/` and joinpath() do not reach the same helper with encoded=False by default", sample="both -> _make_child, encoded default False")
